@@ -233,10 +233,15 @@ def r2(ctx):
                 probs.append(f"early return of `{unparse(v)}` which is not the absorbing value {absorbing}")
         after = cl.body[cl.body.index(loop) + 1:]
         flags = set()
+        pm_ = f.module.parents()
         for st in walk_stmts(loop.body):
-            if isinstance(st, (ast.Assign, ast.AugAssign)) and " is None" in unparse(st.value):
+            if isinstance(st, (ast.Assign, ast.AugAssign)):
                 t = st.targets[0] if isinstance(st, ast.Assign) else st.target
-                if isinstance(t, ast.Name):
+                if not isinstance(t, ast.Name):
+                    continue
+                # `flag = flag or value is None`   or   `if value is None [or ...]: flag = True`
+                under_null_test = any(" is None" in unparse(tst) and pol for tst, pol in lexical_guards(pm_, st, stop=loop))
+                if " is None" in unparse(st.value) or under_null_test:
                     flags.add(t.id)
         null_after = False
         ident_after = False
